@@ -11,6 +11,7 @@ extern "C" {
 #include <aws/common/private/byte_buf.h> // reserve_smart[_relative]: exported, declared in a private header
 }
 #include <aws/common/error.h>
+#include <aws/common/thread.h>
 
 #include <vector>
 #include <string>
@@ -401,7 +402,41 @@ void run_growth(Ctx &c) {
         simalloc::check_all("after operation");
     }
     if (M.inited) aws_byte_buf_clean_up(&M.buf);
-    simalloc::expect_balanced("end of run");
+}
+
+// ---------------------------------------------------------------- a second thread growing a buffer of its own
+// Buffers are independent objects: what one thread appends to its buffer must not depend on what another thread does to a different
+// buffer at the same time. The only decision points inside the buffer code are the allocator calls of the growth path.
+struct PeerArg { Ctx *c; int n; uint64_t seed; };
+void peer_fn(void *arg) {
+    PeerArg *pa = (PeerArg *)arg;
+    Ctx &c = *pa->c;
+    struct aws_byte_buf b;
+    std::vector<uint8_t> m;
+    if (aws_byte_buf_init(&b, c.alloc, 0)) sim::violation("c01:init", "peer: init(0) failed");
+    sim::Rng r(sim::mix64(pa->seed, 0x9EE5));
+    for (int i = 0; i < pa->n; i++) {
+        uint64_t k = r.below(100);
+        uint8_t v = (uint8_t)(0x80 | (i * 7 + 3)); // main-thread bytes of the same run are generated independently
+        int rc;
+        if (k < 70) { rc = aws_byte_buf_append_byte_dynamic(&b, v); m.push_back(v); }
+        else if (k < 85) { rc = aws_byte_buf_append_byte_dynamic_secure(&b, v); m.push_back(v); }
+        else {
+            uint8_t three[3] = {v, (uint8_t)(v ^ 0x55), (uint8_t)(v + 1)};
+            struct aws_byte_cursor cur = aws_byte_cursor_from_array(three, 3);
+            rc = aws_byte_buf_append_dynamic(&b, &cur);
+            m.insert(m.end(), three, three + 3);
+        }
+        if (rc) sim::violation("c01:append", "peer thread: dynamic append failed");
+        if (b.len != m.size() || b.len > b.capacity) sim::violation("c01:len", "peer thread: len %zu, model %zu, capacity %zu", b.len, m.size(), b.capacity);
+        if (memcmp(b.buffer, m.data(), b.len) != 0) {
+            size_t j = 0;
+            while (b.buffer[j] == m[j]) j++;
+            sim::violation("c01:content", "peer thread: byte %zu of its own buffer is 0x%02x, it appended 0x%02x (another thread was appending to a different buffer)", j, b.buffer[j], m[j]);
+        }
+    }
+    sim::probe("second_thread_grew_its_own_buffer");
+    aws_byte_buf_clean_up_secure(&b);
 }
 
 RunInfo run(const sim::Plan &plan) {
@@ -411,6 +446,8 @@ RunInfo run(const sim::Plan &plan) {
     ac.has_calloc = plan.get("alloc_calloc", 1) != 0;
     ac.p_move = (double)plan.get("alloc_move_permille", 500) / 1000.0;
     ac.p_reuse = (double)plan.get("alloc_reuse_permille", 700) / 1000.0;
+    int peer_n = plan.get("part", 0) == 1 ? (int)plan.get("peer_appends", 0) : 0;
+    if (peer_n > 0) ac.yield_points = true; // the allocator calls are where the two threads can interleave
     Ctx c;
     c.plan = &plan;
     c.alloc = simalloc::create(ac);
@@ -419,7 +456,19 @@ RunInfo run(const sim::Plan &plan) {
     sim::begin(plan);
     if (plan.get("part", 0) == 0) {
         for (const sim::Op &op : plan.ops) if (op.kind == OP_FILE) run_file(c, op);
-    } else run_growth(c);
+    } else if (peer_n > 0) {
+        struct aws_thread th;
+        PeerArg pa{&c, peer_n, plan.seed};
+        aws_thread_init(&th, c.alloc);
+        if (aws_thread_launch(&th, peer_fn, &pa, nullptr)) sim::violation("c01:harness", "thread launch failed");
+        run_growth(c);
+        aws_thread_join(&th);
+        aws_thread_clean_up(&th);
+        simalloc::expect_balanced("end of run");
+    } else {
+        run_growth(c);
+        simalloc::expect_balanced("end of run");
+    }
     RunInfo ri;
     ri.st = sim::end();
     ri.ops_done = c.ops_done;
@@ -501,6 +550,11 @@ void gen(uint64_t seed, int tier, sim::Plan &p) {
             big.d = r.chance(0.4);
             p.ops.insert(p.ops.begin() + (long)r.below(p.ops.size() + 1), big);
         }
+        if (r.chance(0.15)) {
+            // a second thread grows a buffer of its own meanwhile
+            p.cfg["peer_appends"] = r.range(5, 120);
+            hgen::sched_config(r, p, true, false, false, false, -1);
+        }
     }
 }
 
@@ -536,7 +590,7 @@ extern const Harness H_C01 = {
     "Two kinds of plans. (0) file -> buffer: aws_byte_buf_init_from_file[_with_size_hint] on a simulated file: content length from "
     "{0,1,31,32,33,4095,4096,4097,8192,10000,random}, size reported by fstat equal / 0 / 4096 / larger / smaller than the content, size hints "
     "around the length, read chunking and stdio buffering, at most one of fopen error, fstat error, fileno failure, read error at an offset; "
-    "simulated allocator (moves or not on realloc, with or without mem_realloc, junk fill). (1) growth: 3-40 operations of init, init_copy, init_cache_and_update_cursors (0-40 cursors), "
+    "simulated allocator (moves or not on realloc, with or without mem_realloc, junk fill). (1) growth (15% with a second thread growing a buffer of its own, interleaved at the allocator calls): 3-40 operations of init, init_copy, init_cache_and_update_cursors (0-40 cursors), "
     "init_copy_from_cursor, append_dynamic[_secure] incl. self-append, append_byte_dynamic[_secure], append, reserve, reserve_relative, "
     "reserve_smart[_relative] incl. len+additional overflow, cat, reset, secure_zero, clean_up[_secure], checked against a byte-vector "
     "model after every call; released blocks are inspected by the allocator (zero-filled for the secure variants, guard bands intact). "
